@@ -23,6 +23,16 @@ func logFn(tag string, result js.Expr) *js.FuncLit {
 	return js.Fn("", nil, js.Log(str(tag)), ret(result))
 }
 
+// unresolvablePut: var G = this; w = (Object.defineProperty(G, "w", desc), 2); then the value and attributes of w.
+func unresolvablePut(desc *js.ObjectLit) *js.Program {
+	G, w := js.Id("G"), js.Id("w")
+	def := js.CallE(js.Dot(js.Id("Object"), "defineProperty"), G, str("w"), desc)
+	d := js.CallE(js.Dot(js.Id("Object"), "getOwnPropertyDescriptor"), G, str("w"))
+	return &js.Program{Body: []js.Stmt{js.Var("G", &js.This{}),
+		js.Log(str("assign"), &js.Assign{Op: "=", L: w, R: &js.Seq{List: []js.Expr{def, js.N(2)}}}),
+		js.Log(str("w"), w, js.Dot(d, "writable"), js.Dot(d, "enumerable"), js.Dot(d, "configurable"), &js.Unary{Op: "typeof", X: js.Dot(d, "set")})}}
+}
+
 func witnesses() []witnessCase {
 	x, z, o, k, i := js.Id("x"), js.Id("z"), js.Id("o"), js.Id("k"), js.Id("i")
 	forLoop := func(update js.Expr, body js.Stmt) js.Stmt {
@@ -130,6 +140,20 @@ func witnesses() []witnessCase {
 			oo := &js.ObjectLit{Props: []js.PropDef{{Key: "a", Kind: "get", Val: logFn("ga", js.N(2))}}}
 			return &js.Program{Body: []js.Stmt{js.Var("o", oo), forLoop(postInc("i"), js.Blk(js.ES(js.Dot(o, "a")), js.Log(js.N(1))))}}
 		}},
+		// 8.7.2 step 3.b: PutValue on an unresolvable Reference is [[Put]] on the global
+		// object; the right-hand side creates the property after the reference was resolved
+		{"unresolvable-put-nonconfigurable", func() *js.Program {
+			return unresolvablePut(lit("value", js.N(1), "writable", &js.Bool{V: true}, "configurable", &js.Bool{V: false}, "enumerable", &js.Bool{V: true}))
+		}},
+		{"unresolvable-put-nonenumerable", func() *js.Program {
+			return unresolvablePut(lit("value", js.N(1), "writable", &js.Bool{V: true}, "configurable", &js.Bool{V: true}, "enumerable", &js.Bool{V: false}))
+		}},
+		{"unresolvable-put-readonly", func() *js.Program {
+			return unresolvablePut(lit("value", js.N(1), "writable", &js.Bool{V: false}, "configurable", &js.Bool{V: true}, "enumerable", &js.Bool{V: true}))
+		}},
+		{"unresolvable-put-setter", func() *js.Program {
+			return unresolvablePut(lit("set", js.Fn("", []string{"v"}, js.Log(str("setter"), js.Id("v"))), "get", js.Fn("", nil, ret(str("from-getter"))), "configurable", &js.Bool{V: true}))
+		}},
 		{"with-call-this", func() *js.Program {
 			m := js.Fn("", nil, ret(bin("===", &js.This{}, o)))
 			return &js.Program{Body: []js.Stmt{js.Var("o", lit("m", m)), js.Var("r", nil),
@@ -142,6 +166,10 @@ func witnesses() []witnessCase {
 // of the witnesses that no alternative-model switch covers; used by the
 // signature c01-witness-exact together with the key lists in known.d/C01.json.
 var witnessObserved = map[string]string{
+	"unresolvable-put-nonconfigurable":         "all routes: log=[s:assign,d:2 | s:w,d:1,b:1,b:1,b:0,s:undefined] value=s:w exc=",
+	"unresolvable-put-nonenumerable":           "all routes: log=[s:assign,d:2 | s:w,d:2,b:1,b:1,b:1,s:undefined] value=s:w exc=",
+	"unresolvable-put-readonly":                "all routes: log=[s:assign,d:2 | s:w,d:2,b:1,b:1,b:1,s:undefined] value=s:w exc=",
+	"unresolvable-put-setter":                  "all routes: log=[s:assign,d:2 | s:w,d:2,b:1,b:1,b:1,s:undefined] value=s:w exc=",
 	"forin-return-continues-in-prototype":      "all routes: log=[s:a | s:b | s:ret,s:b] value=s:ret exc=",
 	"forin-outer-break-continues-in-prototype": "all routes: log=[s:a | s:b | s:after] value=s:after exc=",
 	"forin-shadowed-property-once":             "all routes: log=[s:a,d:1 | s:a,d:1] value=s:a exc=",
